@@ -184,7 +184,9 @@ PROPS = {
         ],
     },
     'C07': {
-        'contracts': READS + ['pexpect._async_w_await.PatternWaiter.data_received', 'pexpect._async_w_await.expect_async'],
+        'contracts': READS + ['pexpect._async_w_await.PatternWaiter.data_received', 'pexpect._async_w_await.expect_async',
+                              ('pexpect.spawnbase.SpawnBase.__init__', 'ctx:ctor-base'), ('pexpect.fdpexpect.fdspawn.__init__', 'ctx:ctor'),
+                              ('pexpect.socket_pexpect.SocketSpawn.__init__', 'ctx:ctor'), ('pexpect.popen_spawn.PopenSpawn.__init__', 'ctx:ctor')],
         'assumptions': [
             'codecs incremental decoders are homomorphisms on streams that do not end inside a character: dec(a) ++ dec(b) == dec(a ++ b) (sampled dynamically in the thorough tier); given that, feeding every chunk exactly once, in order, with final=False to the one decoder of the instance delivers the decoding of the whole stream',
             'os.read returns a non-empty chunk of at most the requested size, b"" or raises OSError',
@@ -192,7 +194,8 @@ PROPS = {
         ],
     },
     'C13': {
-        'contracts': ['pexpect.utils.split_command_line', 'pexpect.utils.is_executable_file', 'pexpect.utils.which', 'pexpect.pty_spawn.spawn._spawn'],
+        'contracts': ['pexpect.utils.split_command_line', 'pexpect.utils.is_executable_file', 'pexpect.utils.which', 'pexpect.pty_spawn.spawn._spawn',
+                      ('pexpect.popen_spawn.PopenSpawn.__init__', 'ctx:ctor')],
         'extra': 'contracts.extra_c13',
         'technique_note': 'the quote/join round-trip law is a bounded check of the real function (labelled bounded, not counted as proved); everything else is proved',
         'bounds': {'*': {'alphabet': "a '\"\\\\", 'maxlen': 5}},
